@@ -8,6 +8,7 @@ import (
 	"os"
 
 	"github.com/spq/pkappa2/verifx/c01"
+	"github.com/spq/pkappa2/verifx/c02"
 	"github.com/spq/pkappa2/verifx/c03"
 	"github.com/spq/pkappa2/verifx/c07"
 	"github.com/spq/pkappa2/verifx/c14"
@@ -30,6 +31,8 @@ func main() {
 		code = c17.Run(*tier)
 	case "C01":
 		code = c01.Run(*tier)
+	case "C02":
+		code = c02.Run(*tier)
 	case "C03":
 		code = c03.Run(*tier)
 	case "C07":
